@@ -169,8 +169,8 @@ def run(tier):
         n_now = 0 if kind == "ensemble" else 1
         while True:
             if n_now >= 1 and n_now <= maxn:
-                full = np.asarray(ch.get_sample(burn=0, thin=1), dtype=float)
-                fullp = np.asarray(ch.get_probabilities(burn=0, thin=1), dtype=float)
+                full = np.array(ch.get_sample(burn=0, thin=1), dtype=float)            # (copies: a sampler may hand out views of its store)
+                fullp = np.array(ch.get_probabilities(burn=0, thin=1), dtype=float)
                 d = full.shape[1] if full.ndim == 2 else 1
                 if len(fullp) != n_now or len(full) != n_now:
                     ck.violation("full read-out has the chain's length", {"class": cname, "n": n_now, "samples": len(full), "probs": len(fullp)},
@@ -222,6 +222,13 @@ def run(tier):
                             except Exception as ex:
                                 if not uni:
                                     ck.violation("get_marginal raised", {**ident, "error": repr(ex)}, site=f"{cname}.get_marginal")
+                        # building a marginal estimate is a read-out: the chain reads the same afterwards
+                        if not (np.array_equal(np.asarray(ch.get_sample(burn=0, thin=1), dtype=float), full)
+                                and np.array_equal(np.asarray(ch.get_probabilities(burn=0, thin=1), dtype=float), fullp)
+                                and np.array_equal(np.asarray(ch.get_parameter(d - 1, burn=burn, thin=thin), dtype=float), full[ids][:, d - 1])):
+                            ck.violation("read-outs return exactly entries burn, burn+thin, ... of the chain (also after a marginal estimate was built from them)",
+                                         {**ident, "parameter": d - 1}, site=f"{cname}.get_marginal:chain-modified")
+                            full = np.array(ch.get_sample(burn=0, thin=1), dtype=float)
                     # get_interval
                     if thin <= 3 and (burn <= 3 or burn >= n - 1):
                         for f8 in ((0, 2, 5, 7, 8) if tier == "quick" else range(0, 9)):         # the boundary fractions 0 and 1 included
@@ -263,6 +270,8 @@ def run(tier):
                      ev_ident[i], site=f"{ev_ident[i]['class']}.get_interval")
     reload_part(ck, tier)
     returned_arrays_part(ck, tier)
+    from harness import c03
+    c03.interrupted_part(ck, tier)          # read-outs stay aligned when a step was interrupted by an exception of the posterior
     from harness import c03 as _c03
     _c03.defaults_part(ck, tier)                 # default-argument read-outs are aligned row for row
     from harness import repotests
